@@ -303,10 +303,10 @@ class SdrFullSensorRecord(SdrCommon):
 
         fmt = self.analog_data_format
         if (fmt == self.DATA_FMT_1S_COMPLEMENT):
-            if value < 0:
+            if raw < 0:
                 raw = (-raw ^ 0x7f) | 0x80
         elif (fmt == self.DATA_FMT_2S_COMPLEMENT):
-            if value < 0:
+            if raw < 0:
                 raw = (-(raw + 1) ^ 0x7f) | 0x80
 
         if raw > 0xff:
